@@ -61,7 +61,9 @@ def expect_pattern(tsrc):
 HEADER = ["from dataclasses import dataclass", "from typing import *", "from enum import Enum", "from apischema import schema", "LOG = []", ""]
 # nullable arguments without a Python default (the argument may be omitted or null: the resolver receives None), plain or behind an annotation
 NULLABLE_ARGS = {"x: Optional[int]": "", "x: Annotated[Optional[int], schema(min=0)]": "(x: null)", "x: Annotated[Optional[int], schema(max=9)]": "",
-                 "x: Annotated[Optional[int], schema(min=0)] = None": "(x: 4)"}
+                 "x: Annotated[Optional[int], schema(min=0)] = None": "(x: 4)",
+                 # an explicit null where the Python default is not None: the resolver receives None, as deserialize(Optional[int], None) gives
+                 "x: Optional[int] = 10": "(x: null)", "x: Optional[int] = 11": ""}
 
 
 def run(prop, seed, budget, ctx):
@@ -118,7 +120,7 @@ def run(prop, seed, budget, ctx):
         if res.errors or res.data[f"q{i}"] != want_data:
             fail("execution-differs-from-serialize", info=info, query=query, errors=[str(e) for e in res.errors or []][:2], data=res.data, want=want_data)
         elif arg:
-            want_x = {"x: int": 3, "x: int = 5": 5, "x: Optional[int] = None": None, "x: List[int]": [1, 2]}.get(arg, 4 if NULLABLE_ARGS.get(arg) == "(x: 4)" else None)
+            want_x = {"x: int": 3, "x: int = 5": 5, "x: Optional[int] = None": None, "x: List[int]": [1, 2]}.get(arg, 4 if NULLABLE_ARGS.get(arg) == "(x: 4)" else 11 if arg == "x: Optional[int] = 11" else None)
             if mod.LOG != [(i, want_x)]: fail("resolver-did-not-receive-the-deserialized-argument", info=info, log=list(mod.LOG), want=want_x)
         if len(samples) < 4 and t not in NAMES: samples.append({"query": query, "return_type": t, "graphql_type": str(f.type), "data": res.data})
         # invalid argument: a GraphQL error, resolver not invoked
